@@ -30,7 +30,8 @@ RULE = ('categorical data sets (1-3 covariates of arity 2-4, <= 12 strata, posit
         'each permutation.  distinct = (frame hash, estimator, plan, order); non-trivial = the plan is conditional with '
         '>= 2 different probabilities, or the strata have different treated fractions and cell means (mixture differs '
         'from the crude mean)')
-ASSUMPTIONS = ['numpy RNG: np.random.choice(pool, size=k, replace=False) returns k distinct members of pool and '
+ASSUMPTIONS = ['np.random.seed(s), for every s including 0, determines all later draws of the global generator; '
+               'numpy RNG: np.random.choice(pool, size=k, replace=False) returns k distinct members of pool and '
                'np.random.binomial(1, p, n) a 0/1 vector of length n, all 1 (0) when p = 1 (0): measured on every captured '
                'draw (gate H); the distribution of the draws is not assumed (theorems hold for every draw)',
                'statsmodels GLM solves the score equations of the saturated treatment / outcome models (reference fits by '
@@ -54,8 +55,8 @@ def cells(df, covs, wcol=None):
     for s in out['S']:
         for a in (0, 1):
             sel = (sid == s) & (df['A'].values == a) & ~np.isnan(df['Y'].values.astype(float))
-            num = sum(Fraction(int(wi)) * Fraction(float(yi)) for wi, yi in zip(w[sel], df['Y'].values[sel]))
-            out['cm'][(s, a)] = num / sum(Fraction(int(wi)) for wi in w[sel])
+            num = sum(Fraction(float(wi)) * Fraction(float(yi)) for wi, yi in zip(w[sel], df['Y'].values[sel]))
+            out['cm'][(s, a)] = num / sum(Fraction(float(wi)) for wi in w[sel])
     return out
 
 
@@ -65,7 +66,7 @@ def mixture_exact(df, cl, frac, target, wcol=None):
     w = df[wcol].values if wcol else np.ones(len(df), dtype=int)
     num = den = Fraction(0)
     for s in cl['S']:
-        nt = sum(Fraction(int(wi)) for wi in w[(sid == s) & target])
+        nt = sum(Fraction(float(wi)) for wi in w[(sid == s) & target])
         num += nt * (frac[s] * cl['cm'][(s, 1)] + (1 - frac[s]) * cl['cm'][(s, 0)])
         den += nt
     return num / den
@@ -169,8 +170,28 @@ def everyone(who, covs):
     return ["%s['%s']>=0" % (who, covs[0])]
 
 
+_SEEDS = [0]
+
+
+def pick_seed(rng):
+    """Monte-Carlo seeds: the legitimate value 0 every third time, otherwise random"""
+    _SEEDS[0] += 1
+    return 0 if _SEEDS[0] % 3 == 0 else int(rng.integers(1, 10 ** 6))
+
+
+def disturb_global_rng():
+    """leave numpy's global random state somewhere else: a seeded call must not depend on it"""
+    np.random.seed(int(np.random.randint(0, 2 ** 31 - 1)) ^ 0x5bd1e995)
+    np.random.uniform(size=11)
+
+
 def perms_of(m, tier):
+    """every listing order; in the quick tier 4 conditions get 9 of their 24 orders (reversal, the rotations, swaps)"""
     ps = list(itertools.permutations(range(m)))
+    if tier == 'quick' and m >= 4:
+        keep = {(3, 2, 1, 0), (1, 2, 3, 0), (2, 3, 0, 1), (3, 0, 1, 2), (1, 0, 2, 3), (0, 2, 1, 3), (0, 1, 3, 2),
+                (2, 1, 0, 3), (0, 1, 2, 3)}
+        ps = [q for q in ps if q in keep]
     return ps
 
 
@@ -252,7 +273,10 @@ def siptw_cell(chk, drv, df, cfg, rec):
                   'sum_s (N_s/N)(p_s ybar_s1 + (1-p_s) ybar_s0)', dict(case, want=float(want)))
             if drv is not None:
                 pis = [frac.get(s, Fraction(0)) for s in range(max(cl['S']) + 1)]
-                rep, _ = drv.ask('mixture', tgt='population', pis=enc_list(pis, rq), **gen.enc_rows(df, covs, wcol))
+                kw = gen.enc_rows(df, covs, None)
+                if wcol:
+                    kw['w'] = enc_list(df[wcol].tolist(), rq)
+                rep, _ = drv.ask('mixture', tgt='population', pis=enc_list(pis, rq), **kw)
                 chk.k(rep['status'] == 'ok' and Fraction(rep['m']) == want,
                       'Lean mixture (exact) = independent closed form', dict(case, model=rep))
     if drv is not None:
@@ -278,17 +302,21 @@ def gf_fit(df, cols, model, ytype, tgt, p, conds, samples, seed, tap, wcol=None,
 def gf_cell(chk, drv, df, cfg, rec):
     covs, model, p, conds, sat, tgt, ytype, samples, seed = (cfg[k] for k in (
         'covs', 'model', 'p', 'conditional', 'saturated', 'standardize', 'outcome', 'samples', 'seed'))
-    cols = [c for c in df.columns if c != 'w']
+    wcol = cfg.get('weights')
+    cols = [c for c in df.columns if c != 'w' or wcol]
     pm = cfg.get('predict_missing', True)
+
+    def gf_fit_w(*a, **k):
+        return gf_fit(*a, wcol=wcol, **k)
     case = {'kind': 'TimeFixedGFormula.fit_stochastic', 'cfg': cfg, 'data': rec}
     m = 1 if conds is None else len(conds)
     tap = Tap(m)
-    base, gobj = gf_fit(df, cols, model, ytype, tgt, p, conds, samples, seed, tap, pm=pm)
+    base, gobj = gf_fit_w(df, cols, model, ytype, tgt, p, conds, samples, seed, tap, pm=pm)
     nontriv = conds is not None and len(set(p)) > 1
     chk.case(case, (frame_hash(df), 'GF', repr(p), repr(conds), tgt, samples, seed) if (nontriv or sat) else None,
              sample={'kind': 'GF', 'p': p, 'conditional': conds, 'samples': samples, 'n': len(df)}
              if chk.evals % 19 == 0 else None)
-    chk.count('GF/%s%s/%s/%s/samples=%d' % ('' if pm else 'predict_missing=False/', 'uncond' if conds is None else 'cond%d' % len(conds), tgt, ytype, samples))
+    chk.count('GF/%s%s%s/%s/%s/samples=%d' % ('' if pm else 'predict_missing=False/', 'weights/' if wcol else '', 'uncond' if conds is None else 'cond%d' % len(conds), tgt, ytype, samples))
     case['impl'] = base
     masks = [np.ones(len(df), dtype=bool)] if conds is None else masks_of(df, conds)
     plist = [p] if conds is None else list(p)
@@ -322,30 +350,32 @@ def gf_cell(chk, drv, df, cfg, rec):
     # treated sets coincide is prod_c C(n_c, k_c)^-(samples-1) (uniform draws of k_c among n_c, independent over
     # conditions and resamples); the predicate is judged only in cells where that bound is < 1e-9.
     lg = sum(log10_binom(int(mk.sum()), int(pk * int(mk.sum()))) for mk, pk in zip(masks, plist))
-    if samples >= 5 and min(int(mk.sum()) for mk in masks) >= 12 and (samples - 1) * lg > 9.0:
+    if wcol is None and samples >= 5 and min(int(mk.sum()) for mk in masks) >= 12 and (samples - 1) * lg > 9.0:
         chk.count('GF/judged-resamples-differ')
         chk.d(any(not np.array_equal(t, treated[0]) for t in treated[1:]),
               'stochastic g-formula: the %d resamples do not all treat the same units (false-alarm probability '
               '< 10^-%d)' % (samples, int((samples - 1) * lg)), dict(case, first_treated=np.flatnonzero(treated[0])[:20].tolist()))
     # D: same seed, same order -> same estimate (the estimate is a function of the draws only)
-    again, _ = gf_fit(df, cols, model, ytype, tgt, p, conds, samples, seed, Tap(m), pm=pm)
-    chk.d(close(again, base, **TOLX), 'stochastic g-formula: same seed gives the same estimate', dict(case, again=again))
+    disturb_global_rng()
+    again, _ = gf_fit_w(df, cols, model, ytype, tgt, p, conds, samples, seed, Tap(m), pm=pm)
+    chk.d(close(again, base, **TOLX), 'stochastic g-formula: the same seed (0 included) gives the same estimate whatever the '
+          'global random state before the call', dict(case, again=again))
     # D: a one-pair listing whose condition selects everybody consumes the identical draw stream as the unconditional
     # plan (same np.random.choice calls), so for a fixed seed the raw estimates coincide exactly
     if conds is None:
-        one, _ = gf_fit(df, cols, model, ytype, tgt, [p], everyone('g', covs), samples, seed, Tap(1), pm=pm)
+        one, _ = gf_fit_w(df, cols, model, ytype, tgt, [p], everyone('g', covs), samples, seed, Tap(1), pm=pm)
         chk.d(close(one, base, **TOLX), 'stochastic g-formula, fixed seed: one-pair listing selecting everybody = '
               'unconditional plan (identical draw stream)', dict(case, one_pair=one))
     # D: every listing order, meeting the same draws, gives the same estimate
     if conds is not None and draws_ok:
         store = {(k // m, c['pool']): c['res'] for k, c in enumerate(tap.calls)}
         for perm in perms_of(m, chk.tier):
-            got, _ = gf_fit(df, cols, model, ytype, tgt, [p[i] for i in perm], [conds[i] for i in perm], samples, seed,
+            got, _ = gf_fit_w(df, cols, model, ytype, tgt, [p[i] for i in perm], [conds[i] for i in perm], samples, seed,
                             Tap(m, replay=store), pm=pm)
             chk.d(close(got, base, **TOLX), 'stochastic g-formula: listing order of the (condition, p) pairs changes '
                   'nothing (draws attached to their conditions)', dict(case, order=list(perm), permuted=got))
         if m == 2:
-            got, _ = gf_fit(df, cols, model, ytype, tgt, p, complement_listing(conds), samples, seed, Tap(m, replay=store), pm=pm)
+            got, _ = gf_fit_w(df, cols, model, ytype, tgt, p, complement_listing(conds), samples, seed, Tap(m, replay=store), pm=pm)
             chk.d(close(got, base, **TOLX), 'stochastic g-formula: the same partition written with the complementary '
                   'condition strings gives the same estimate', dict(case, complementary=got))
     # D: degenerate plans
@@ -355,7 +385,7 @@ def gf_cell(chk, drv, df, cfg, rec):
         chk.d(close(base, float(gobj.marginal_outcome), **TOLX), "stochastic g-formula with p = %d everywhere = "
               "fit('%s')" % (int(pi[0]), 'all' if pi[0] == 1 else 'none'), dict(case, det=float(gobj.marginal_outcome)))
         if conds is not None:
-            unc, _ = gf_fit(df, cols, model, ytype, tgt, float(pi[0]), None, samples, seed, Tap(1), pm=pm)
+            unc, _ = gf_fit_w(df, cols, model, ytype, tgt, float(pi[0]), None, samples, seed, Tap(1), pm=pm)
             chk.d(close(unc, base, **TOLX), 'stochastic g-formula: conditional [%d,...,%d] = unconditional %d exactly'
                   % (int(pi[0]), int(pi[0]), int(pi[0])), dict(case, unconditional=unc))
     if conds is not None and set(pi.tolist()) == {0.0, 1.0}:
@@ -365,7 +395,7 @@ def gf_cell(chk, drv, df, cfg, rec):
               'fit(custom deterministic rule)', dict(case, rule=rule, det=float(gobj.marginal_outcome)))
     # target rows: the standardization target, restricted to rows with an observed outcome when predict_missing=False
     tm = target_mask(df, tgt) & (np.ones(len(df), dtype=bool) if pm else df['Y'].notna().values)
-    cl = cells(df, covs) if sat else None
+    cl = cells(df, covs, wcol) if sat else None
     if sat:
         # D: exact identity -- estimate = mean over resamples of the mixture at the REALISED treated fractions
         vals, dev = [], 0.0
@@ -373,11 +403,12 @@ def gf_cell(chk, drv, df, cfg, rec):
             frac = {}
             for s in cl['S']:
                 sel = (cl['sid'] == s) & tm
-                frac[s] = Fraction(int((t & sel).sum()), int(sel.sum()))
+                wv = df[wcol].values if wcol else np.ones(len(df))
+                frac[s] = sum(Fraction(float(v)) for v in wv[t & sel]) / sum(Fraction(float(v)) for v in wv[sel])
                 nominal = set(pi[sel].tolist())
                 if len(nominal) == 1:
                     dev = max(dev, abs(float(frac[s]) - nominal.pop()))
-            vals.append(mixture_exact(df, cl, frac, tm))
+            vals.append(mixture_exact(df, cl, frac, tm, wcol))
         want = float(sum(vals) / len(vals))
         chk.d(close(base, want, **TOLC), 'stochastic g-formula (saturated outcome model) = mixture at the realised treated '
               'fractions, averaged over the resamples', dict(case, want=want))
@@ -387,15 +418,16 @@ def gf_cell(chk, drv, df, cfg, rec):
         fam = {'binary': sm.families.family.Binomial(), 'normal': sm.families.family.Gaussian()}[ytype]
         with warnings.catch_warnings():
             warnings.simplefilter('ignore')
-            om = smf.glm('Y ~ ' + model, df.dropna(subset=['Y']), family=fam).fit()
+            dd = df.dropna(subset=['Y'])
+            om = smf.glm('Y ~ ' + model, dd, family=fam, **({'freq_weights': dd[wcol]} if wcol else {})).fit()
         chk.h_checked += 1
         q1 = np.asarray(om.predict(df.assign(A=1)))
         q0 = np.asarray(om.predict(df.assign(A=0)))
         sid = cl['sid'] if cl else np.zeros(len(df), dtype=int)
         chosen = '|'.join(';'.join(enc_list(np.flatnonzero(t & mk).tolist(), str) for mk in masks) for t in treated)
-        rows = enc_rows_f(df.assign(Y=df['Y'].fillna(0.0)), sid)
+        rows = enc_rows_f(df.assign(Y=df['Y'].fillna(0.0)), sid, wcol)
         if not pm:
-            rows['w'] = fxs(df['Y'].notna().values.astype(float))
+            rows['w'] = fxs(df['Y'].notna().values.astype(float) * (df[wcol].values if wcol else 1.0))
         rep, _ = drv.ask('gfmc', c='f', tgt=tgt, q1=fxs(q1), q0=fxs(q0), chosen=chosen, **rows)
         chk.k(rep['status'] == 'ok' and close(unfx(rep['m']), base, **TOLD),
               'stochastic g-formula = Lean model on the reference predictions and the captured draws',
@@ -465,6 +497,13 @@ def stmle_cell(chk, drv, df, cfg, rec):
         chk.d(any(not np.array_equal(a, assigned[0]) for a in assigned[1:]),
               'StochasticTMLE: the %d resamples do not all assign the same treatments (false-alarm probability < 10^%d)'
               % (samples, int(lg)), dict(case, first=assigned[0][:30].astype(int).tolist()))
+    # D: the estimate is a function of data, plan, samples and seed only: repeating the call with the same seed (0 is a
+    # legitimate seed) after numpy's global random state has been moved elsewhere returns the same numbers
+    disturb_global_rng()
+    tr = stmle_fit(df, cols, gmodel, qmodel, p, conds, samples, seed, Tap(m))
+    chk.d(same_snapshot(snapshot(t), snapshot(tr)), 'StochasticTMLE: the same seed (0 included) gives the same results '
+          '(estimate, resample vector, SEs, limits) whatever the global random state before the call',
+          dict(case, again={k2: v for k2, v in snapshot(tr).items() if k2 != 'mv'}))
     # D: every listing order, meeting the same draws: same clever covariate (epsilon) and same estimate
     if conds is not None and draws_ok:
         store = [c['res'] for c in tap.calls]
@@ -625,6 +664,7 @@ def stmle_custom_cell(chk, drv, df, cfg, rec):
     tap = Tap(m)
     with tap:
         t.fit(p=p, conditional=conds, samples=samples, seed=seed)
+    disturb_global_rng()
     ref = stmle_fit(df, cols, satg, satq, p, conds, samples, seed, Tap(m))
     got = {'marginal': float(t.marginal_outcome), 'epsilon': float(t.epsilon)}
     chk.d(close(got['marginal'], float(ref.marginal_outcome), **TOLC) and abs(got['epsilon'] - float(ref.epsilon)) <= 1e-6
@@ -650,12 +690,17 @@ def stmle_custom_cell(chk, drv, df, cfg, rec):
 
 def snapshot(t):
     return {'marginal': float(t.marginal_outcome), 'epsilon': float(t.epsilon), 'conditional_se': float(t.conditional_se),
+            'marginal_se': float(t.marginal_se), 'marginal_ci': [float(v) for v in t.marginal_ci],
+            'conditional_ci': [float(v) for v in t.conditional_ci],
             'mv': [float(v) for v in np.asarray(t.marginals_vector, dtype=float)]}
 
 
 def same_snapshot(a, b):
     return close(a['marginal'], b['marginal'], **TOLX) and close(a['epsilon'], b['epsilon'], rtol=1e-9, atol=1e-12) and \
-        close(a['conditional_se'], b['conditional_se'], rtol=1e-9, atol=1e-12) and allclose(a['mv'], b['mv'], **TOLX)
+        close(a['conditional_se'], b['conditional_se'], rtol=1e-9, atol=1e-12) and allclose(a['mv'], b['mv'], **TOLX) and \
+        close(a['marginal_se'], b['marginal_se'], rtol=1e-9, atol=1e-12) and \
+        allclose(a['marginal_ci'], b['marginal_ci'], rtol=1e-9, atol=1e-12) and \
+        allclose(a['conditional_ci'], b['conditional_ci'], rtol=1e-9, atol=1e-12)
 
 
 def stmle_history_cell(chk, drv, df, cfg, rec):
@@ -758,18 +803,18 @@ def run(chk, drv, rng, tier):
             t += 1
             tgt = ['population', 'exposed', 'unexposed'][t % 3] if cs is not None or p not in (0.0, 1.0) else 'population'
             cfg = dict(covs=covs, model=satq, p=p, conditional=cs, saturated=True, standardize=tgt, outcome=ytype,
-                       samples=SAMPLES[t % 4], seed=int(rng.integers(1, 10 ** 6)))
+                       samples=SAMPLES[t % 4], seed=pick_seed(rng))
             guard(chk, 'TimeFixedGFormula.fit_stochastic', cfg, rec, gf_cell, drv, df, cfg, rec)
         cs0 = cond_sets(df, covs, rng, 'g')[1]
         for p, cs in ((0.5, None), ([float(v) for v in np.round(rng.uniform(0.3, 0.7, size=2), 2)], cs0)):
             cfg = dict(covs=covs, model=satq, p=p, conditional=cs, saturated=True, standardize='population', outcome=ytype,
-                       samples=5, seed=int(rng.integers(1, 10 ** 6)))
+                       samples=5, seed=pick_seed(rng))
             guard(chk, 'TimeFixedGFormula.fit_stochastic', cfg, rec, gf_cell, drv, df, cfg, rec)
         if ytype == 'binary':
             for p, cs in plans_for(df, covs, rng, 'df'):
                 t += 1
                 cfg = dict(covs=covs, gmodel=satg, qmodel=satq, p=p, conditional=cs, saturated=True,
-                           samples=SAMPLES[t % 4], seed=int(rng.integers(1, 10 ** 6)))
+                           samples=SAMPLES[t % 4], seed=pick_seed(rng))
                 guard(chk, 'StochasticTMLE', cfg, rec, stmle_cell, drv, df, cfg, rec)
     # StochasticTMLE with custom learners (treatment / outcome / both; predict_proba and predict-only dispatch)
     for i in range(1 if tier == 'quick' else 5):
@@ -782,7 +827,7 @@ def run(chk, drv, rng, tier):
         for j, which in enumerate(('q', 'g', 'both')):
             for k, (p, c) in enumerate(plans):
                 t += 1
-                cfg = dict(covs=covs, p=p, conditional=c, samples=[2, 5, 3][k % 3], seed=int(rng.integers(1, 10 ** 6)),
+                cfg = dict(covs=covs, p=p, conditional=c, samples=[2, 5, 3][k % 3], seed=pick_seed(rng),
                            custom=which, learner=['proba', 'predict'][(i + j + k) % 2])
                 guard(chk, 'StochasticTMLE-custom', cfg, rec, stmle_custom_cell, drv, df, cfg, rec)
     # weights= : frequency weights that differ between the arms within strata (StochasticIPTW)
@@ -790,6 +835,8 @@ def run(chk, drv, rng, tier):
         df, covs = gen.cat_dataset(rng, outcome=['binary', 'normal'][i % 2], ncov=1 + i % 2, weights=True,
                                    n_extra=int(rng.integers(60, 260)), index=['shifted', 'shuffled', 'default'][i % 3])
         df['w'] = df['w'] + 2 * df['A'] * (gen.strata_ids(df, covs) % 2) + (1 - df['A']) * (gen.strata_ids(df, covs) % 3)
+        if i % 2 == 0:
+            df['w'] = np.round(df['w'] * rng.uniform(0.4, 1.6, size=len(df)), 2)      # fractional, varying inside cells
         rec = {'frame': gen.frame_record(df), 'n': len(df), 'covs': covs}
         for p, cs in plans_for(df, covs, rng, 'df'):
             cfg = dict(covs=covs, model=gen.sat_cov(covs), p=p, conditional=cs, saturated=True, weights='w')
@@ -809,11 +856,28 @@ def run(chk, drv, rng, tier):
                 t += 1
                 cfg = dict(covs=covs, model=gen.sat_out(covs), p=p, conditional=c, saturated=True,
                            standardize=['population', 'exposed', 'unexposed'][(k + int(pm)) % 3], outcome=ytype,
-                           samples=[3, 5, 1][k % 3], seed=int(rng.integers(1, 10 ** 6)), predict_missing=pm)
+                           samples=[3, 5, 1][k % 3], seed=pick_seed(rng), predict_missing=pm)
+                guard(chk, 'TimeFixedGFormula.fit_stochastic', cfg, rec, gf_cell, drv, df, cfg, rec)
+    # weights= x standardize x missing outcomes (stochastic g-formula): fractional weights varying inside cells
+    for i in range(1 if tier == 'quick' else 4):
+        ytype = ['binary', 'normal'][i % 2]
+        df, covs = gen.cat_dataset(rng, outcome=ytype, ncov=1 + i % 2, weights=True, missing=[None, 'mar'][i % 2],
+                                   n_extra=int(rng.integers(80, 220)), index=['shuffled', 'shifted', 'default'][i % 3])
+        df['w'] = np.round(df['w'] * rng.uniform(0.4, 1.6, size=len(df)) + 0.5 * df['A'], 2)
+        rec = {'frame': gen.frame_record(df), 'n': len(df), 'covs': covs}
+        cs = cond_sets(df, covs, rng, 'g')[0]
+        plans = [(1.0, None), (0.0, None), (0.6, None), ([float(k % 2) for k in range(len(cs))], cs),
+                 ([float(v) for v in np.round(rng.uniform(0.2, 0.8, size=len(cs)), 2)], cs)]
+        for k, (p, c) in enumerate(plans):
+            for pm in ((True, False) if df['Y'].isna().any() else (True,)):
+                t += 1
+                cfg = dict(covs=covs, model=gen.sat_out(covs), p=p, conditional=c, saturated=True,
+                           standardize=['population', 'exposed', 'unexposed'][(k + i) % 3], outcome=ytype,
+                           samples=[3, 5, 2][k % 3], seed=pick_seed(rng), predict_missing=pm, weights='w')
                 guard(chk, 'TimeFixedGFormula.fit_stochastic', cfg, rec, gf_cell, drv, df, cfg, rec)
     # non-saturated models on data with a continuous predictor: order-freeness and degenerate plans do not need saturation
     for i in range(2 if tier == 'quick' else 12):
-        df = relabel(mixed_dataset(rng), rng, ['shuffled', 'default', 'shifted'][i % 3]).drop(columns=['w'])
+        df = relabel(mixed_dataset(rng), rng, ['shuffled', 'default', 'shifted'][i % 3]).drop(columns=['w', 'wf'])
         rec = {'frame': gen.frame_record(df), 'n': len(df), 'covs': ['L1', 'L2']}
         covs = ['L1', 'L2']
         gm, qm = 'C(L1) + L2 + x', 'A + C(L1) + L2 + x + A:L2'
@@ -839,16 +903,17 @@ def run(chk, drv, rng, tier):
                     cfg = dict(covs=covs, model=gm, p=p, conditional=cs, saturated=False, weights=None)
                 elif kind == 'StochasticTMLE':
                     cfg = dict(covs=covs, gmodel=gm, qmodel=qm, p=p, conditional=cs, saturated=False,
-                               samples=(pl[2] if len(pl) > 2 else SAMPLES[t % 4]), seed=int(rng.integers(1, 10 ** 6)))
+                               samples=(pl[2] if len(pl) > 2 else SAMPLES[t % 4]), seed=pick_seed(rng))
                 else:
                     cfg = dict(covs=covs, model=qm, p=p, conditional=cs, saturated=False, standardize='population',
                                outcome='binary', samples=(pl[2] if len(pl) > 2 else SAMPLES[t % 4]),
-                               seed=int(rng.integers(1, 10 ** 6)))
+                               seed=pick_seed(rng))
                 guard(chk, kind, cfg, rec, fn, drv, df, cfg, rec)
         # histories on one object (non-saturated: epsilon != 0, so a corrupted stored treatment shows)
         k1 = sorted(df['L1'].unique())
         c01 = ["df['L1']==%d" % k1[0], "df['L1']!=%d" % k1[0]]
         sd = [int(v) for v in rng.integers(1, 10 ** 6, size=6)]
+        sd[0] = sd[3] = 0
         steps = [dict(op='g', model=gm), dict(op='q', model=qm),
                  dict(op='fit', p=0.5, conditional=None, seed=sd[0]),
                  dict(op='fit', p=[1.0, 0.0], conditional=c01, seed=sd[1]),
